@@ -30,6 +30,9 @@ CHECKS = {
  "C10": ("exploration", "wire-length monitor and core output-callback monitor under any-int SetMtu values before/during traffic; enumerated staging-buffer fill levels; process-survival oracle",
    "Held on the executions produced; the staging sweep enumerates every ACK-count/probe/segment-size combination around the MTU boundary for 15 MTU values.",
    "pipeline drained before a switch so that 'from then on' is well defined", "DESIGN.md §3 C10"),
+ "C06": ("exploration", "before/after deep state snapshots and SNMP counter deltas at synctest quiescence around single injected datagrams; corruptions built at plaintext level with reference ciphers",
+   "Thousands of injections per quick run over all ciphers, both receive paths and all packet kinds; the no-effect oracle compares the complete reachable state by value, so an effect anywhere (decoder, autotune ring, session table, wake-up tokens, counters) is visible.",
+   "snapshot exclusion list; reference ciphers", "DESIGN.md §3 C06"),
  "C13": ("exploration", "virtual-time trace monitor: return time and error class of every blocked caller recorded at the API boundary and compared with a reference model of deadline/data/close/error semantics at bubble quiescence after each scripted stimulus",
    "Thousands of scripted interleavings of blocked Read/Write/Accept callers with deadline changes, arrivals, Close and socket errors, judged to the exact virtual millisecond; held on the scripts executed.",
    "synctest virtual time; Go scheduler order inside one instant", "DESIGN.md §3 C13"),
